@@ -79,6 +79,8 @@ type frame struct {
 }
 
 type FnExec struct {
+	okRefs map[Term]bool      // interface values produced by `v, ok := x.(T)`: nil when the assertion failed
+	callPC map[*ssa.Call]Term // path condition under which each call of the top frame was executed (error-propagation family)
 	eng           *Engine
 	script        *Script
 	regs          map[ssa.Value]Val
@@ -731,9 +733,56 @@ func (fe *FnExec) load(st *State, p PtrV) Val {
 		return r
 	}
 	if p.ElemOf != nil {
+		if es := p.ElemOf.Elems; es != nil && len(es) > 0 && len(es) <= 8 {
+			// a short literal ([]error{a, b}) read at a symbolic index: the element is one of the known ones
+			if v, ok := iteChain(es, p.Idx); ok {
+				return v
+			}
+		}
 		return fe.elemLoad(*p.ElemOf, p.Idx, p.Pointee)
 	}
 	return fe.loadHeap(st, p.Prefix, p.Base, p.Pointee)
+}
+
+// iteChain selects es[idx] for scalar / reference elements of one kind.
+func iteChain(es []Val, idx Term) (Val, bool) {
+	kind := ""
+	var ts []Term
+	for _, e := range es {
+		switch x := e.(type) {
+		case RefV:
+			if kind != "" && kind != "ref" {
+				return nil, false
+			}
+			kind = "ref"
+			ts = append(ts, x.T)
+		case IntV:
+			if kind != "" && kind != "int" {
+				return nil, false
+			}
+			kind = "int"
+			ts = append(ts, x.T)
+		case BoolV:
+			if kind != "" && kind != "bool" {
+				return nil, false
+			}
+			kind = "bool"
+			ts = append(ts, x.T)
+		default:
+			return nil, false
+		}
+	}
+	t := ts[len(ts)-1]
+	for i := len(ts) - 2; i >= 0; i-- {
+		t = tIte(tEq(idx, tInt(int64(i))), ts[i], t)
+	}
+	switch kind {
+	case "ref":
+		return RefV{t}, true
+	case "int":
+		return IntV{t}, true
+	}
+	return BoolV{t}, true
 }
 
 func (fe *FnExec) store(st *State, p PtrV, v Val) {
@@ -861,6 +910,24 @@ func (fe *FnExec) assignOrdinals(fr *frame) {
 					fr.ords[in] = fmt.Sprintf("maplookup#%d", next("maplookup"))
 					fr.pseudoSites[fr.ords[in]] = true
 					fr.pseudoVals[fr.ords[in]] = x
+				}
+			case *ssa.Send:
+				fr.ords[in] = fmt.Sprintf("send#%d", next("send"))
+				fr.pseudoSites[fr.ords[in]] = true
+			case *ssa.Select:
+				// the send cases of a select are numbered with the plain sends, in block order
+				first := -1
+				for _, stt := range x.States {
+					if stt.Dir == types.SendOnly {
+						k := next("send")
+						if first < 0 {
+							first = k
+						}
+						fr.pseudoSites[fmt.Sprintf("send#%d", k)] = true
+					}
+				}
+				if first >= 0 {
+					fr.ords[in] = fmt.Sprintf("send#%d", first)
 				}
 			case *ssa.MakeSlice:
 				fr.ords[in] = fmt.Sprintf("alloc[%d]", next("alloc"))
